@@ -8,7 +8,8 @@ EXPLANATION = ("Structural necessary conditions of byte-exact stream transfer: (
                "exactly the remaining bytes of the field (GetVarint: buffer[0..1] then buffer[offset..varint_size]) so no application byte is "
                "swallowed; (3) no buffering layer: the stream handles are newtypes over the quinn streams and read/write/poll_* delegate with the "
                "caller's buffer and return quinn's count unchanged; (4) a SendStream is handed out only on the Ok arm of the awaited preamble "
-               "write, with the connection's own session id; (5) the accept tasks hand on the very stream object the preamble was read from.")
+               "write, with the connection's own session id; (5) the accept tasks hand on the very stream object the preamble was read from."
+               " Also: finish() returns only after stopped() reported all data acknowledged (C01-R7); every tokio AsyncRead/AsyncWrite method of the stream wrappers delegates to the same method of the wrapped stream (poll_shutdown sends the FIN); the worker's acceptor branches carry no stream-read progress and own no pulled stream across an await (C01-R6).")
 NOT_DECIDED = ["ordering / reliability / flow control of QUIC itself (quinn, trusted)", "behaviour with many concurrent streams beyond the independence facts of C07"]
 TRUSTED = ["rustc MIR and type table", "quinn stream semantics"]
 
